@@ -96,7 +96,7 @@ func runCheck(repo, verif, prop, tier string) int {
 		// the tree does not load (compile error in /repo or in a contract file)
 		return fail("cannot load /repo with -tags verif: " + err.Error())
 	}
-	timeout := 15 * time.Second
+	timeout := 25 * time.Second
 	need := 1
 	if tier == "thorough" {
 		timeout = 60 * time.Second
